@@ -66,3 +66,15 @@ package jrpc2
 //@   ensures [inv] forall k key :: segOK(c, k)
 //@   ensures [result-is-a-successful-fetch] result1 == nil ==> fetched(result0)
 //@   ensures [error-returns-nothing] !nocache && result1 != nil ==> result0 == nil
+
+// C07/C06: the HTTP exchange is outside the verified text. Trusted contract:
+// do may write anything into dest (the decoded response is arbitrary) and
+// reports transport, status and decoding failures as an error.
+//@ func (*Client).do props=C07 trusted modifies=ext
+
+// A null or missing result must be an error, never a nil dereference.
+//@ func (*Client).Hash props=C07,C06
+//@   requires c != nil
+//@ func (*Client).Latest props=C07,C06,C08
+//@   requires c != nil
+//@   after do assume hresp.Header == nil || len((*hresp.Header).Hash) == 0 || base((*hresp.Header).Hash) != base(c.lcache.Hash)
